@@ -44,6 +44,12 @@ CHECKS = {
  "C11": dict(cat="exploration", tech="algebraic-law monitor on Rule.Compare / Rules.Sort over generated triples, permuted lists and the complete matrix of shipped includes",
    text="20000 / 600000 same-kind triples (strata: file rules with known / unknown / mixed prefixes, near-duplicates differing in one letter's case, one byte or one flag) checked for antisymmetry, transitivity and equal-only-if-identical; 2000 / 60000 lists x 8 permutations for idempotent, order-independent Sort; all ~400 shipped abstractions as include rules compared pairwise (complete matrix, consistency with a linear order).",
    note="Trusted: rule identity = canonical text with set-valued fields sorted. Paths containing '=' are outside this domain (finding C09/equals-in-path).", ref="5 C11"),
+ "C10": dict(cat="translation_validation", tech="translation validation of Rules.Merge: independent denotation of input and merged list + both texts compiled by the reference parser (bytes, then automata equivalence)",
+   text="3000 / 120000 lists of valid rules (random, one kind, near-duplicates differing in case/one byte/one flag, same subject with different or empty set fields, a signal grid) are merged by the real library in the worker; the atomic (qualifier, subject, permission) facts of input and output must be equal, Merge must be idempotent, and for lists of AppArmor-3 kinds the printed input and output are compiled by apparmor_parser: equal bytes => equal, else equivalence of every dumped automaton plus capability/network/rlimit dump lines; lists with deny rules are compiled a second time under blanket allow rules. Disagreement between the two oracles is inconclusive.",
+   note="Trusted: the denotation in vlib/c10.py (empty list = every value of a finite domain); apparmor_parser 3.0.8 compiled output is canonical. programs = lists compiled as pairs, disagreements_checked = pairs settled by automata.", ref="5 C10"),
+ "C13": dict(cat="exploration", tech="differential monitor: Parse+Resolve of the real library in CPU/memory-limited worker processes vs apparmor_parser -D expanded-variables on the same generated preamble",
+   text="3000 / 100000 generated cycle-free preambles (comments, abi before/after, 1-6 variables, += anywhere after the definition, nested and repeated references, alternations, //) plus error strata (undefined, self-reference, += self-reference, second definition; cycles of length 2-3 one per process): same value sets per variable and attachment as the reference parser, same accept/reject, no panic, no hang, and every comment/abi/include/alias entry and every definition kept.",
+   note="Trusted: apparmor_parser's own expansion (variables referenced from a stub profile so that it evaluates them); '//' collapsed on both sides; expansion sizes bounded to 200 values.", ref="5 C13"),
 }
 REASONS = {}
 props = [json.loads(l) for l in open(os.path.join(V, "properties.jsonl"))]
